@@ -68,6 +68,13 @@ def run_check(prop: str, tier: str, seed: int) -> int:
         from .rules.common import check_wrappers
 
         check_wrappers(ctx, f"{prop}-ww", anchored)
+        from .rules.common import check_super_forwarding
+
+        check_super_forwarding(ctx, f"{prop}-ww", anchored)
+        # shared rule S: positional calls of the pinned signatures still bind every value to its parameter
+        from .rules.common import check_positional_order
+
+        check_positional_order(ctx, f"{prop}-ss", anchored)
         # shared rule D: double precision throughout (no narrower floating type named anywhere in the package)
         from .rules.dtypes import check_precision
 
